@@ -7,6 +7,15 @@ import itertools
 import json
 import random
 
+
+
+def ints(b):
+    try:
+        return [int(x) for x in b.as_tuple()]
+    except Exception:
+        return repr(b)
+
+
 from .gen import (leaf_pool, rand_model, leaves_of, assignments, is_var, ref_truth, solver_safe, well_defined)
 
 
@@ -230,7 +239,7 @@ def c03_evaluate_glue(tier, seed):
     """C03 glue: evaluate == top entry of evaluate_propositions; every entry is the reference truth value; overrides of
     sub-proposition ids are honoured (fresh model per call: the known assume() leak must not contaminate)"""
     r = _result("rt.c03_evaluate_glue", "random validated models x total interpretations given as int / tuple / Bounds "
-                "(mixed) x optional override of one sub-proposition id; non-trivial = distinct (model, value)")
+                "(mixed) x override of one sub-proposition id or of the model's own id as int / numpy int / (c,c) / Bounds(c,c); non-trivial = distinct (model, value)")
     import puan
     import pickle
     for m0, rng in _models(tier, seed + 1, depth=3):
@@ -265,12 +274,13 @@ def c03_evaluate_glue(tier, seed):
                           got=str(props[s.id]), ref=ref3(s))
             r["_seen"].add((text, ref3(m0)))
             # override one sub-proposition id
-            if len(subs) > 1:
-                s = rng.choice([x for x in subs if x.id != m0.id])
+            if subs:
+                s = rng.choice(subs)                      # an inner sub-proposition or the model's own id
                 c = rng.randrange(2)
                 m = pickle.loads(blob)
                 f2 = dict(forms)
-                f2[s.id] = c
+                import numpy as _np
+                f2[s.id] = rng.choice([c, (c, c), puan.Bounds(c, c), _np.int64(c)])
 
                 def ref4(n):
                     if is_var(n):
@@ -281,9 +291,14 @@ def c03_evaluate_glue(tier, seed):
                         return n.bounds.constant
                     return 1 if n.sign * sum(ref4(x) for x in n.propositions) >= n.value else 0
                 got = m.evaluate(f2)
-                if got.constant != ref4(m0):
-                    _viol(r, "c03.override-not-honoured", {"model": text, "env": env, "override": {str(s.id): c}},
+                if got.constant != ref4(m0) or tuple(got.as_tuple()) != (ref4(m0), ref4(m0)):
+                    _viol(r, "c03.override-not-honoured", {"model": text, "env": env, "override": {str(s.id): repr(f2[s.id])}},
                           got=str(got), ref=ref4(m0))
+                m = pickle.loads(blob)
+                top2 = m.evaluate_propositions(dict(f2)).get(m0.id)
+                if top2 != got:
+                    _viol(r, "c03.evaluate-not-top-entry", {"model": text, "env": env, "override": {str(s.id): repr(f2[s.id])}},
+                          evaluate=str(got), top_entry=str(top2))
     return _finish(r)
 
 
@@ -383,14 +398,14 @@ def c07_assume_compose(tier, seed):
                 r["_seen"].add((text, tuple(sorted(set(forms))), tuple(one.as_tuple())))
                 if tuple(two.as_tuple()) != tuple(one.as_tuple()):
                     _viol(r, "c07.assume-then-evaluate-differs", {"model": text, "assumption": _plain(a), "rest": rr},
-                          assume_then_evaluate=[int(x) for x in two.as_tuple()], evaluate_union=[int(x) for x in one.as_tuple()])
+                          assume_then_evaluate=ints(two), evaluate_union=ints(one))
     return _finish(r)
 
 
 def _plain(d):
     out = {}
     for k, v in d.items():
-        out[str(k)] = [int(x) for x in v.as_tuple()] if hasattr(v, "as_tuple") else (list(v) if isinstance(v, tuple) else v)
+        out[str(k)] = ints(v) if hasattr(v, "as_tuple") else (list(v) if isinstance(v, tuple) else v)
     return out
 
 
@@ -400,8 +415,8 @@ def c04_json_and_rules(tier, seed):
     import puan
     import puan.logic.plog as pg
     r = _result("rt.c04_json_and_rules", "all JSON records {type in All/Any/AtLeast/AtMost/Xor/XNor/Imply/Not} over <=3 boolean "
-                "leaves nested to depth 2 (sampled), and all cicJE rules (5 rule types x ALL/ANY relation x 0..2 sub-conditions "
-                "x ALL/ANY inner) x all 0/1 assignments; non-trivial = distinct (record, truth value)")
+                "leaves nested to depth 2 (sampled; at-most-k incl. k = -1), and all cicJE rules (5 rule types x ALL/ANY relation x 0..2 sub-conditions "
+                "x ALL/ANY inner x groups of 1, 2 and 3 components x with/without explicit group ids) x all 0/1 assignments; non-trivial = distinct (record, truth value)")
     rng = random.Random(seed + 3)
     names = ["a", "b", "c", "d"]
 
@@ -427,7 +442,7 @@ def c04_json_and_rules(tier, seed):
         out = {"type": t, "propositions": [s[0] for s in subs]}
         if t in ("AtLeast", "AtMost"):
             # at-least-k is documented for k >= 1 (value <= 0 selects the negative default sign); at-most-k for k >= 0
-            out["value"] = rng.randint(1 if t == "AtLeast" else 0, len(subs))
+            out["value"] = rng.randint(1 if t == "AtLeast" else -1, len(subs))
             return out, (t, subs, out["value"])
         return out, (t, subs)
 
@@ -471,32 +486,45 @@ def c04_json_and_rules(tier, seed):
                   "ONE_OR_NONE": lambda v: int(sum(v) <= 1), "FORBIDS_ALL": lambda v: int(not any(v)),
                   "REQUIRES_EXCLUSIVELY": lambda v: int(sum(v) == 1)}
     rel = {"ALL": all, "ANY": any}
+    sub_sets = ([], [("ALL", ["a", "b"])], [("ANY", ["a", "b"])], [("ALL", ["a"]), ("ANY", ["b", "c"])],
+                [("ANY", ["a", "c"]), ("ALL", ["b", "c"])], [("ALL", ["a"])], [("ANY", ["b"])], [("ANY", ["a"]), ("ALL", ["b"])])
     for rt_, fn in rule_types.items():
         for outer in ("ALL", "ANY"):
-            for subs in ([], [("ALL", ["a", "b"])], [("ANY", ["a", "b"])], [("ALL", ["a"]), ("ANY", ["b", "c"])],
-                         [("ANY", ["a", "c"]), ("ALL", ["b", "c"])]):
-                data = {"consequence": {"ruleType": rt_, "components": comps(["x", "y", "z"])}}
-                if subs:
-                    data["condition"] = {"relation": outer, "subConditions": [
-                        {"relation": r_, "components": comps(cs)} for r_, cs in subs]}
-                try:
-                    m = pg.Imply.from_cicJE(json.loads(json.dumps(data)))
-                except Exception as e:
-                    _viol(r, "c04.from_cicJE-raises", {"rule": data}, error=repr(e))
-                    continue
-                for bits in itertools.product((0, 1), repeat=6):
-                    env = dict(zip("abcxyz", bits))
-                    cons = fn([env[k] for k in "xyz"])
-                    if subs:
-                        cond = rel[outer]([rel[r_]([env[k] for k in cs]) for r_, cs in subs])
-                        want = int((not cond) or cons)
-                    else:
-                        want = cons
-                    got = pg.Imply.from_cicJE(json.loads(json.dumps(data))).evaluate(dict(env))
-                    r["evaluations"] += 1
-                    r["_seen"].add((rt_, outer, len(subs), want))
-                    if got.constant != want:
-                        _viol(r, "c04.cicJE-truth-table", {"rule": data, "env": env}, got=str(got), want=want)
+            for subs in sub_sets:
+                # groups of one, two and three components; with and without explicit ids on the groups
+                for cons_ids in (["x", "y", "z"], ["x", "y"], ["x"]):
+                    for with_ids in (False, True):
+                        if outer == "ANY" and not subs:
+                            continue
+                        data = {"consequence": {"ruleType": rt_, "components": comps(cons_ids)}}
+                        if with_ids:
+                            data["consequence"]["id"] = "CONS"
+                            data["id"] = "RULE"
+                        if subs:
+                            data["condition"] = {"relation": outer, "subConditions": [
+                                dict({"relation": r_, "components": comps(cs)}, **({"id": "SUB%d" % i} if with_ids else {}))
+                                for i, (r_, cs) in enumerate(subs)]}
+                            if with_ids:
+                                data["condition"]["id"] = "COND"
+                        try:
+                            m = pg.Imply.from_cicJE(json.loads(json.dumps(data)))
+                        except Exception as e:
+                            _viol(r, "c04.from_cicJE-raises", {"rule": data}, error=repr(e))
+                            continue
+                        used = sorted(set(cons_ids) | {k for _, cs in subs for k in cs})
+                        for bits in itertools.product((0, 1), repeat=len(used)):
+                            env = dict(zip(used, bits))
+                            cons = fn([env[k] for k in cons_ids])
+                            if subs:
+                                cond = rel[outer]([rel[r_]([env[k] for k in cs]) for r_, cs in subs])
+                                want = int((not cond) or cons)
+                            else:
+                                want = cons
+                            got = pg.Imply.from_cicJE(json.loads(json.dumps(data))).evaluate(dict(env))
+                            r["evaluations"] += 1
+                            r["_seen"].add((rt_, outer, len(subs), len(cons_ids), with_ids, want))
+                            if got.constant != want:
+                                _viol(r, "c04.cicJE-truth-table", {"rule": data, "env": env}, got=str(got), want=want)
     # the constructors take any iterable of propositions: lists, tuples, generators, map objects, mixed ids / objects
     for kind in ("list", "tuple", "generator", "map", "iter"):
         for items in (["a", "b", "c"], ["a", puan.variable("b"), "c"], [pg.Any("a", "b", variable="Q"), "c", "d"]):
@@ -681,6 +709,25 @@ def c10_validation(tier, seed):
         errs = m.errors()
         r["evaluations"] += 1
         r["_seen"].add(("complete-dash", errs == [], True))
+        if errs != []:
+            _viol(r, "c10.rejects-distinct-id-tree", {"model": _dump(m)}, errors=[str(e) for e in errs])
+    # ids that differ only in blanks / quotes / commas (texts of the definitions coincide once such characters are dropped):
+    # (a) one id defined twice with children that differ only in that way -> two definitions, must be rejected;
+    # (b) pairwise distinct ids that are equal up to such characters -> a plain tree, must be accepted
+    for strip in (" ", "'", ",", "_"):
+        x1, x2, y1, y2 = "x" + strip + "1", "x1", "y" + strip + "1", "y1"
+        m = pg.All(pg.Any(pg.AtLeast(1, [x1, y1], variable="B"), "u", variable="U"),
+                   pg.Any(pg.AtLeast(1, [x2, y2], variable="B"), "w", variable="W"), variable="TOP")
+        errs = m.errors()
+        r["evaluations"] += 1
+        r["_seen"].add(("sound-blank", strip, errs == []))
+        if errs == []:
+            _viol(r, "c10.accepts-ill-defined", {"model": _dump(m)}, note="id B has two definitions whose child ids differ only in %r" % strip)
+        m = pg.All(pg.Any(pg.AtLeast(1, [x1, y1], variable="opt" + strip + "1"), "u", variable="U"),
+                   pg.Any(pg.AtLeast(1, [x2, y2], variable="opt1"), "w", variable="W"), variable="TOP")
+        errs = m.errors()
+        r["evaluations"] += 1
+        r["_seen"].add(("complete-blank", strip, errs == []))
         if errs != []:
             _viol(r, "c10.rejects-distinct-id-tree", {"model": _dump(m)}, errors=[str(e) for e in errs])
     # deterministic hash-colliding definitions of one id
